@@ -447,7 +447,7 @@ impl Property for C07 {
     }
     fn required_labels(&self) -> Vec<String> {
         let mut v: Vec<String> = registry().iter().map(|e| format!("type={}", e.full)).collect();
-        v.extend(["schema=proto", "schema=python", "unknown-field", "unpacked", "map", "deprecated-field", "oneof-unset", "oneof-set", "shuffled", "explicit-default", "enum-undeclared-number", "read-through-artifact-layer"].iter().map(|s| s.to_string()));
+        v.extend(["schema=proto", "schema=python", "unknown-field", "unpacked", "map", "deprecated-field", "oneof-unset", "oneof-set", "shuffled", "explicit-default", "enum-undeclared-number", "read-through-artifact-layer", "sweep=big-payloads", "payload>=16KiB", "big-payload-nested", "sweep=pre-1.6-sample-set"].iter().map(|s| s.to_string()));
         v
     }
     fn cases(&self, tier: Tier) -> usize {
@@ -467,10 +467,10 @@ impl Property for C07 {
         ]
     }
     fn sweep_len(&self, _tier: Tier) -> usize {
-        5 + enum_registry().len()
+        5 + enum_registry().len() + 1
     }
     fn sweep_description(&self) -> Option<String> {
-        Some("descriptor agreement (.proto text vs Python serialized descriptors vs #[prost] attributes), harness registry completeness, every enum value, the bundled old artifact".into())
+        Some("descriptor agreement (.proto text vs Python serialized descriptors vs #[prost] attributes), harness registry completeness, every enum value, the bundled old artifact, 1.6 and pre-1.6 sample sets, and every repeated / map field of every message type with 300 and 3000 elements (payloads up to tens of KiB), alone and nested in every message that can hold it".into())
     }
     fn sweep_case(&self, _tier: Tier, i: usize, ctx: &mut Ctx) -> PResult {
         let sc = schemas();
@@ -637,6 +637,10 @@ impl Property for C07 {
                 }
                 Ok(())
             }
+            k if k == 5 + enum_registry().len() => {
+                ctx.nontrivial();
+                big_payload_sweep(proto, ctx)
+            }
             k => {
                 let (name, to_name, from_name) = enum_registry()[k - 5];
                 ctx.label(format!("sweep=enum:{name}"));
@@ -740,6 +744,121 @@ impl Property for C07 {
         }
         Ok(())
     }
+}
+
+/// The conformance check of one dynamic message of type `e.full`: independent encoder -> Rust binding -> by-name
+/// projection; Rust encoder -> independent decoder; decode(encode(t)) == t.
+fn roundtrip_check(s: &Schema, e: &Entry, d: &DynMsg, layout: &EncLayout, what: &dyn Fn() -> String) -> Result<Vec<u8>, crate::driver::Failure> {
+    let bytes = encode(s, d, layout, 0);
+    let mk = |sig: String, msg: String| crate::driver::Failure { signature: sig, message: msg };
+    let (proj, re, rt_ok) = match (e.run)(&bytes) {
+        Ok(x) => x,
+        Err(err) => return Err(mk(format!("C07/rust-decode-rejects/{}", e.full), format!("the Rust binding rejects bytes of a conforming encoder ({err}): {}", what()))),
+    };
+    if &proj != d {
+        let diff = first_diff(d, &proj);
+        return Err(mk(format!("C07/decoded-content/{}", e.full), format!("decoded content differs by name: {diff}\n {}", what())));
+    }
+    let (d2, unknown) = match decode(s, e.full, &re) {
+        Ok(x) => x,
+        Err(err) => return Err(mk(format!("C07/rust-encoding-unreadable/{}", e.full), format!("bytes produced by the Rust binding are rejected by a schema-driven decoder ({err}): {}", what()))),
+    };
+    if unknown != 0 {
+        return Err(mk(format!("C07/rust-encoding-unknown-fields/{}", e.full), format!("the Rust encoding contains {unknown} fields unknown to the schema: {}", what())));
+    }
+    if &d2 != d {
+        let diff = first_diff(d, &d2);
+        return Err(mk(format!("C07/reencoded-content/{}", e.full), format!("content after Rust decode+encode differs: {diff}\n {}", what())));
+    }
+    if !rt_ok {
+        return Err(mk(format!("C07/prost-roundtrip/{}", e.full), format!("decode(encode(t)) != t: {}", what())));
+    }
+    Ok(bytes)
+}
+
+/// One element of a big repeated / map field, a pure function of its index.
+fn big_scalar(s: &Schema, ty: &Ty, i: usize) -> DV {
+    match ty {
+        Ty::U64 => DV::U64([1u64, 127, 128, 300, 1 << 32, u64::MAX][i % 6] ^ ((i as u64) << 3)),
+        Ty::I64 => DV::I64([1i64, -1, 63, -64, i64::MAX, i64::MIN][i % 6].wrapping_add(i as i64)),
+        Ty::F64 => DV::F64((([1.0f64, -2.5, 0.1, 1e300, -1e-300][i % 5]) * (1.0 + (i % 7) as f64)).to_bits()),
+        Ty::Bool => DV::Bool(i % 3 != 0),
+        Ty::Str => DV::Str(format!("s{i}")),
+        Ty::Enum(n) => DV::Enum(s.enums[n][i % s.enums[n].len()].1),
+        Ty::Msg(_) => unreachable!(),
+    }
+}
+
+/// Messages whose encoding runs to kilobytes / tens of kilobytes (a repeated or map field with `n` elements), alone and
+/// inside every message that can hold them (so that their length prefix is written and read by the enclosing message).
+fn big_payload_sweep(s: &Schema, ctx: &mut Ctx) -> PResult {
+    let reg = registry();
+    let layout = EncLayout::default();
+    let mut cases = 0usize;
+    for e in &reg {
+        let desc = &s.msgs[e.full];
+        for fd in &desc.fields {
+            if fd.oneof.is_some() || !matches!(fd.label, Label::Repeated | Label::Map(..)) {
+                continue;
+            }
+            for n in [300usize, 3000] {
+                let mut d = DynMsg::new(e.full);
+                match &fd.label {
+                    Label::Repeated => {
+                        let items: Vec<DV> = (0..n)
+                            .map(|i| match &fd.ty {
+                                Ty::Msg(mn) => DV::Msg(gen_msg(&mut Tape::new(&[(i % 251) as u8 + 1, (i / 251) as u8, 200, 7, (i % 13) as u8]), s, mn, 3)),
+                                ty => big_scalar(s, ty, i),
+                            })
+                            .collect();
+                        d.f.insert(fd.name.clone(), DV::List(items));
+                    }
+                    Label::Map(kt, vt) => {
+                        let mut mm = BTreeMap::new();
+                        for i in 0..n {
+                            let k = match &**kt {
+                                Ty::U64 => DV::U64(i as u64 + 1),
+                                Ty::I64 => DV::I64(i as i64 + 1),
+                                _ => DV::Str(format!("k{i}")),
+                            };
+                            let v = match &**vt {
+                                Ty::Msg(mn) => DV::Msg(gen_msg(&mut Tape::new(&[(i % 251) as u8 + 1, 200, 9, (i % 11) as u8]), s, mn, 3)),
+                                ty => big_scalar(s, ty, i + 1),
+                            };
+                            mm.insert(dkey(k).unwrap(), v);
+                        }
+                        d.f.insert(fd.name.clone(), DV::Map(mm));
+                    }
+                    _ => unreachable!(),
+                }
+                fix_map_zero(&mut d, s);
+                let what = || format!("type {} with {n} elements in field {}", e.full, fd.name);
+                let bytes = roundtrip_check(s, e, &d, &layout, &what)?;
+                cases += 1;
+                if bytes.len() >= 16 * 1024 {
+                    ctx.label("payload>=16KiB");
+                }
+                // ... and inside every message that has a field of this type
+                for pe in &reg {
+                    for pf in &s.msgs[pe.full].fields {
+                        if pf.ty != Ty::Msg(e.full.to_string()) || matches!(pf.label, Label::Map(..)) {
+                            continue;
+                        }
+                        let mut pd = DynMsg::new(pe.full);
+                        let v = if matches!(pf.label, Label::Repeated) { DV::List(vec![DV::Msg(d.clone()), DV::Msg(d.clone())]) } else { DV::Msg(d.clone()) };
+                        pd.f.insert(pf.name.clone(), v);
+                        let whatp = || format!("type {} holding in field {} a {} with {n} elements in field {}", pe.full, pf.name, e.full, fd.name);
+                        roundtrip_check(s, pe, &pd, &layout, &whatp)?;
+                        cases += 1;
+                        ctx.label("big-payload-nested");
+                    }
+                }
+            }
+        }
+    }
+    ctx.label("sweep=big-payloads");
+    ctx.sample_with(|| json!({"sweep": "big payloads", "messages_checked": cases}));
+    Ok(())
 }
 
 /// Store `bytes` as a raw layer of the matching media type in a local archive, read it back through the typed
